@@ -6,6 +6,7 @@ package main
 import (
 	"go/token"
 	"go/types"
+	"strings"
 
 	"golang.org/x/tools/go/ssa"
 )
@@ -40,6 +41,10 @@ func init() {
 	// digit — octet j = hexval(s[2j])<<4 | hexval(s[2j+1]); otherwise a non-nil error and unspecified octets.
 	extModels["encoding/hex.DecodeString"] = func(x *Exec, fr *Frame, args []Value, pos token.Pos) Value {
 		s := asSlice(args[0])
+		// the digit value and the validity test are the specification functions ids.HexDigit / ids.IsHexDigit,
+		// so that code and contracts speak about the same terms
+		hexVal := func(c *Term) *Term { return term(x.callSpec("ids.HexDigit", Scalar{c})) }
+		isHex := func(c *Term) *Term { return term(x.callSpec("ids.IsHexDigit", Scalar{c})) }
 		if n, ok := concreteLen(s); ok && n <= 128 {
 			valid := BoolC(n%2 == 0)
 			e := make([]Value, n/2)
@@ -327,6 +332,9 @@ func init() {
 		f := x.constStr(args[0])
 		va := asSlice(args[1])
 		n, ok := concreteLen(va)
+		if r, done := x.sprintfStrings(f, va, n, ok); done {
+			return r
+		}
 		if f != "%0*d" || !ok || n != 2 {
 			return UnknownV{types.Typ[types.String], "fmt.Sprintf with a format that is not modelled: " + f}
 		}
@@ -337,4 +345,106 @@ func init() {
 		}
 		return x.formatDec(Resize(term(v.V), 64, true), Resize(term(w.V), 64, true))
 	}
+}
+
+// sprintfStrings: formats made of literal text and %s verbs applied to string arguments are concatenations.
+func (x *Exec) sprintfStrings(f string, va SliceV, n int, ok bool) (Value, bool) {
+	if !ok || f == "?" || strings.Count(f, "%") != strings.Count(f, "%s") || strings.Count(f, "%s") != n || n == 0 {
+		return nil, false
+	}
+	parts := strings.Split(f, "%s")
+	var acc SliceV = x.constString(parts[0])
+	for i := 0; i < n; i++ {
+		iv, isI := x.elemAt(va, bv64(int64(i))).(IfaceV)
+		if !isI || iv.V == nil || iv.Dyn == nil || !isString(iv.Dyn) {
+			return nil, false
+		}
+		acc = x.concatBytes(acc, asSlice(iv.V), true)
+		acc = x.concatBytes(acc, x.constString(parts[i+1]), true)
+	}
+	return acc, true
+}
+
+func init() {
+	// crypto/hmac.New(sha256.New, key): a MAC object remembering the key and the octets written so far;
+	// Sum(nil) is HMAC-SHA-256(key, written) — the opaque specification function kdfspec.HMAC256.
+	extModels["crypto/hmac.New"] = func(x *Exec, fr *Frame, args []Value, pos token.Pos) Value {
+		if fv, ok := args[0].(FuncV); !ok || fv.Fn == nil || fv.Fn.String() != "crypto/sha256.New" {
+			unsup("hmac.New with a hash other than sha256.New")
+		}
+		key := x.copySlice(asSlice(args[1]))
+		o := x.newObject(nil, "hmac")
+		x.st.heap.m[o] = StructV{F: []Value{key, x.constStringBytes("")}}
+		return IfaceV{Nil: False(), Tag: "hmac", V: PtrV{Obj: o, Nil: False()}}
+	}
+	ifaceModels["hmac.Write"] = func(x *Exec, fr *Frame, iv IfaceV, args []Value, pos token.Pos) Value {
+		p := iv.V.(PtrV)
+		st := x.heapGet(p.Obj).(StructV)
+		data := asSlice(args[0])
+		acc := x.concatBytes(asSlice(st.F[1]), data, false)
+		x.st.heap.m[p.Obj] = StructV{F: []Value{st.F[0], acc}}
+		return TupleV{E: []Value{Scalar{data.Len}, IfaceV{Nil: True(), Tag: "error"}}}
+	}
+	ifaceModels["hmac.Sum"] = func(x *Exec, fr *Frame, iv IfaceV, args []Value, pos token.Pos) Value {
+		p := iv.V.(PtrV)
+		st := x.heapGet(p.Obj).(StructV)
+		prefix := asSlice(args[0])
+		if !isZero(prefix.Len) {
+			unsup("hmac Sum with a non-empty prefix")
+		}
+		out := x.callSpec("kdfspec.HMAC256", st.F[0], st.F[1])
+		return x.arrayToFreshSlice(out, "hmacsum")
+	}
+	// regexp.Compile of the one pattern the code uses; FindStringSubmatch on it.
+	extModels["regexp.Compile"] = func(x *Exec, fr *Frame, args []Value, pos token.Pos) Value {
+		pat := x.constStr(args[0])
+		if pat != "(?:imsi|supi)-([0-9]{5,15})" {
+			unsup("regexp.Compile of a pattern that is not modelled: %s", pat)
+		}
+		o := x.newObject(nil, "regexp:"+pat)
+		x.st.heap.m[o] = StructV{F: []Value{}}
+		return TupleV{E: []Value{PtrV{Obj: o, Nil: False()}, IfaceV{Nil: True(), Tag: "error"}}}
+	}
+	// (*Regexp).FindStringSubmatch(s) for "(?:imsi|supi)-([0-9]{5,15})": when s is "imsi-" or "supi-"
+	// followed by 5..15 decimal digits and nothing else, the result is [s, digits]; otherwise unspecified.
+	extModels["(*regexp.Regexp).FindStringSubmatch"] = func(x *Exec, fr *Frame, args []Value, pos token.Pos) Value {
+		s := asSlice(args[1])
+		n, ok := concreteLen(s)
+		cond := False()
+		if ok && n >= 10 && n <= 20 {
+			pi, ps := x.constString("imsi-"), x.constString("supi-")
+			isI, isS := True(), True()
+			for k := 0; k < 5; k++ {
+				c := x.byteAt(s, bv64(int64(k)))
+				isI = And(isI, Eq(c, x.byteAt(pi, bv64(int64(k)))))
+				isS = And(isS, Eq(c, x.byteAt(ps, bv64(int64(k)))))
+			}
+			cond = Or(isI, isS)
+			for k := 5; k < n; k++ {
+				cond = And(cond, isDigit(x.byteAt(s, bv64(int64(k)))))
+			}
+		} else if !ok {
+			unsup("FindStringSubmatch on a string of symbolic length")
+		}
+		digits := SliceV{Obj: s.Obj, Off: BvAdd(s.Off, bv64(5)), Len: BvSub(s.Len, bv64(5)), Cap: BvSub(s.Len, bv64(5)), Nil: False(), Str: true}
+		o := x.newObject(types.Typ[types.String], "submatch")
+		x.st.heap.m[o] = ArrayV{[]Value{s, digits}}
+		ln := bv64(2)
+		nilT := False()
+		if !cond.IsTrue() {
+			// outside the modelled domain the result is unspecified (nil or some match)
+			other := Fresh("submatch!len", BV(64))
+			x.assume(BvUle(other, bv64(2)))
+			ln = Ite(cond, bv64(2), other)
+			nilT = And(Not(cond), Fresh("submatch!nil", BoolSort))
+		}
+		return SliceV{Obj: o, Off: bv64(0), Len: ln, Cap: ln, Nil: nilT}
+	}
+}
+
+// constStringBytes is a fresh empty byte slice (accumulator).
+func (x *Exec) constStringBytes(s string) SliceV {
+	o := x.newObject(types.Typ[types.Uint8], "acc")
+	x.st.heap.m[o] = ArrayV{[]Value{}}
+	return SliceV{Obj: o, Off: bv64(0), Len: bv64(0), Cap: bv64(0), Nil: False()}
 }
